@@ -12,11 +12,17 @@
 package main
 
 import (
+	"encoding/json"
 	"fmt"
 	"os"
+	"os/exec"
+	"runtime"
+	"runtime/debug"
 	"sort"
+	"strconv"
 	"strings"
 	"sync"
+	"time"
 
 	"github.com/XiaoMi/Gaea/backend"
 	"github.com/XiaoMi/Gaea/verifshim/vrand"
@@ -75,20 +81,22 @@ func build(nodes []nodeSpec, tape []int) *world {
 		w.pools = append(w.pools, p)
 		dbi.Nodes = append(dbi.Nodes, &backend.NodeInfo{Address: p.AddrS, Datacenter: dc, Weight: n.W, ConnPool: p, Status: st})
 	}
-	chooserMu.Lock()
-	k := 0
-	vrand.Chooser = func(n int, what string) int {
-		w.ns = append(w.ns, n)
-		c := n - 1
-		if k < len(tape) && tape[k] >= 0 && tape[k] < n {
-			c = tape[k]
+	err := func() error {
+		chooserMu.Lock()
+		defer chooserMu.Unlock()
+		defer func() { vrand.Chooser = nil }()
+		k := 0
+		vrand.Chooser = func(n int, what string) int {
+			w.ns = append(w.ns, n)
+			c := n - 1
+			if k < len(tape) && tape[k] >= 0 && tape[k] < n {
+				c = tape[k]
+			}
+			k++
+			return c
 		}
-		k++
-		return c
-	}
-	err := dbi.InitBalancers(localDC)
-	vrand.Chooser = nil
-	chooserMu.Unlock()
+		return dbi.InitBalancers(localDC)
+	}()
 	if err != nil {
 		ev.Fatalf("InitBalancers(%v): %v", nodes, err)
 	}
@@ -305,7 +313,20 @@ func runOn(w *world, k kase) verdict {
 	return v
 }
 
-func runCase(k kase) verdict { return runOn(build(k.Nodes, k.Tape), k) }
+func runCase(k kase) verdict { return safeRun(nil, k) }
+
+// safeRun runs k on w (nil: on fresh objects); a panic of the code under test is a violation.
+func safeRun(w *world, k kase) (v verdict) {
+	if p := ev.Catch(func() {
+		if w == nil {
+			w = build(k.Nodes, k.Tape)
+		}
+		v = runOn(w, k)
+	}); p != nil {
+		v = verdict{viol: fmt.Sprintf("panic: %v", p), features: map[string]string{"part": "sequential", "kind": "panic", "wrap": "no", "policy": policyName(k.Policy)}}
+	}
+	return v
+}
 
 // ---- enumeration ----------------------------------------------------------------------
 
@@ -430,35 +451,21 @@ func maxRelLen(w *world, policy int) int {
 }
 
 type stats struct {
-	evals, lists, cases, fullPerm, nontrivial, wrapRuns int64
+	Evals      int64 `json:"evals"`
+	Lists      int64 `json:"lists"`
+	Cases      int64 `json:"cases"`
+	FullPerm   int64 `json:"full_perm"`
+	Nontrivial int64 `json:"nontrivial"`
+	WrapRuns   int64 `json:"wrap_runs"`
 }
 
-func main() {
-	gx.Quiet()
-	r := ev.Start("C25", "exploration")
-	scs := scenarios(r)
-	if os.Getenv("VX_CHILD") != "" {
-		vx.Main(r, scs)
-	}
-	var rc kase
-	if r.ReplayCase(&rc) {
-		if rc.Scenario != "" {
-			vx.Main(r, scs) // a vsched witness
-		}
-		v := runCase(rc)
-		fmt.Printf("replay %+v\n  picks=%v\n  violation=%q features=%v\n", rc, v.picks, v.viol, v.features)
-		if v.viol != "" {
-			r.Violation(ev.Witness{Summary: v.viol, Features: v.features, Case: rc})
-		}
-		r.Finish()
-	}
+type group struct {
+	name  string
+	count int
+	get   func(i int) []nodeSpec
+}
 
-	// ---- part (a) ----
-	type group struct {
-		name  string
-		count int
-		get   func(i int) []nodeSpec
-	}
+func groupsFor(r *ev.Run) []group {
 	var groups []group
 	fullW := []int{0, 1, 2, 3, 4, 5, 6, 7, 8}
 	maxFull := r.Pick(3, 4)
@@ -467,8 +474,8 @@ func main() {
 		groups = append(groups, group{fmt.Sprintf("n=%d full product (weights 0-8 x dc x status)", n), listsProduct(n, fullW), func(i int) []nodeSpec { return decodeList(i, n, fullW) }})
 	}
 	if r.Quick() {
-		w4 := []int{0, 1, 2, 3, 4}
-		groups = append(groups, group{"n=4 product with weights {0,1,2,3,4} x dc x status", listsProduct(4, w4), func(i int) []nodeSpec { return decodeList(i, 4, w4) }})
+		w4 := []int{0, 1, 2, 3}
+		groups = append(groups, group{"n=4 product with weights {0,1,2,3} x dc x status", listsProduct(4, w4), func(i int) []nodeSpec { return decodeList(i, 4, w4) }})
 	}
 	for n := 5; n <= 6; n++ {
 		dims := make([]int, 3*n)
@@ -485,55 +492,113 @@ func main() {
 		})
 		groups = append(groups, group{fmt.Sprintf("n=%d, at most %d deviations from (weight 1, local, up)", n, r.Pick(2, 3)), len(ls), func(i int) []nodeSpec { return ls[i] }})
 	}
+	return groups
+}
+
+type violRec struct {
+	Features map[string]string `json:"features"`
+	Summary  string            `json:"summary"`
+	Case     kase              `json:"case"`
+	Count    int64             `json:"count"`
+}
+
+// shardOut is what one worker process reports (vrand.Chooser and math/rand's global seed
+// are process-global, so part (a) is sharded over processes, not goroutines).
+type shardOut struct {
+	Stats     stats         `json:"stats"`
+	GroupRuns []int64       `json:"group_runs"`
+	GroupDone []int         `json:"group_done"`
+	Profiles  []string      `json:"profiles"`
+	Samples   []interface{} `json:"samples"`
+	Viol      []violRec     `json:"viol"`
+	Capped    bool          `json:"capped"`
+	Error     string        `json:"error"`
+}
+
+// enumerateShard runs every list with index%n==k of every group.
+func enumerateShard(r *ev.Run, k, n int, deadline time.Time) *shardOut {
+	groups := groupsFor(r)
 	permLimit := r.Pick(24, 120)
-	var mu sync.Mutex
-	var st stats
-	groupInfo := []map[string]interface{}{}
+	out := &shardOut{GroupRuns: make([]int64, len(groups)), GroupDone: make([]int, len(groups))}
+	profiles := map[string]bool{}
 	sampled := map[string]bool{}
-	for _, g := range groups {
-		g := g
-		var gEvals int64
-		done := enum.Parallel(g.count, r.TimeUp, func(i int) {
+	viol := map[string]*violRec{}
+	for gi, g := range groups {
+		for i := k; i < g.count; i += n {
+			if i%64 == k%64 && time.Now().After(deadline) {
+				out.Capped = true
+				break
+			}
 			nodes := g.get(i)
-			var loc stats
-			loc.lists++
+			out.Stats.Lists++
+			out.GroupDone[gi]++
 			for policy := 0; policy <= 2; policy++ {
-				loc.cases++
-				probe := build(nodes, nil)
-				ts, full := tapes(probe, policy, permLimit)
+				out.Stats.Cases++
+				var probe *world
+				var ts [][]int
+				var full bool
+				if p := ev.Catch(func() {
+					probe = build(nodes, nil)
+					ts, full = tapes(probe, policy, permLimit)
+				}); p != nil {
+					c := kase{Nodes: nodes, Policy: policy, Calls: 1}
+					sig := "panic-build"
+					if viol[sig] == nil {
+						viol[sig] = &violRec{Features: map[string]string{"part": "sequential", "kind": "panic", "wrap": "no", "policy": policyName(policy)}, Case: c,
+							Summary: fmt.Sprintf("nodes=%+v: building the balancers panics: %v", nodes, p)}
+					}
+					viol[sig].Count++
+					continue
+				}
 				if full {
-					loc.fullPerm++
+					out.Stats.FullPerm++
 				}
 				L := maxRelLen(probe, policy)
 				ri := reference(nodes, policy)
 				var starts []uint32
-				calls := 2*L + 2
+				calls := r.Pick(L+2, 2*L+2)
 				if ri.allUp {
 					starts = []uint32{0, uint32(0) - uint32(L+1)}
 					calls = 3*L + 2
+				} else if r.Quick() && L > 4 {
+					// calls that begin at 2^32-k consume k..: the ends, the middle and both sides of the wrap
+					starts = []uint32{0, 1, uint32(0) - uint32(L+1), uint32(0) - uint32(L), uint32(0) - uint32((L+1)/2), ^uint32(1), ^uint32(0)}
 				} else {
 					starts = []uint32{0, 1}
-					for k := 1; k <= L+1; k++ {
-						starts = append(starts, uint32(0)-uint32(k))
+					for b := 1; b <= L+1; b++ {
+						starts = append(starts, uint32(0)-uint32(b))
 					}
 				}
 				nontriv := false
 				for _, t := range ts {
-					w := build(nodes, t)
+					var w *world
+					if p := ev.Catch(func() { w = build(nodes, t) }); p != nil {
+						continue // reported through the probe build
+					}
 					for _, s := range starts {
-						k := kase{Nodes: nodes, Policy: policy, Start: s, Tape: t, Calls: calls}
-						v := runOn(w, k)
-						loc.evals++
+						c := kase{Nodes: nodes, Policy: policy, Start: s, Tape: t, Calls: calls}
+						v := safeRun(w, c)
+						out.Stats.Evals++
+						out.GroupRuns[gi]++
 						if s > 1 {
-							loc.wrapRuns++
+							out.Stats.WrapRuns++
 						}
 						if v.viol != "" {
-							for rep := 0; rep < 5; rep++ {
-								if v2 := runCase(k); v2.viol != v.viol {
-									ev.Fatalf("violation did not reproduce: %+v", k)
+							sig := fmt.Sprint(v.features)
+							vr := viol[sig]
+							if vr == nil {
+								// first of its kind: re-run 5x on fresh objects before believing it
+								for rep := 0; rep < 5; rep++ {
+									if v2 := runCase(c); v2.viol != v.viol {
+										out.Error = fmt.Sprintf("violation did not reproduce: %+v", c)
+										return out
+									}
 								}
+								vr = &violRec{Features: v.features, Case: c,
+									Summary: fmt.Sprintf("nodes=%+v policy=%s start=%d tape=%v: %s", nodes, policyName(policy), s, t, v.viol)}
+								viol[sig] = vr
 							}
-							r.Violation(ev.Witness{Summary: fmt.Sprintf("nodes=%+v policy=%s start=%d tape=%v: %s", nodes, policyName(policy), s, t, v.viol), Features: v.features, Case: k})
+							vr.Count++
 							continue
 						}
 						distinct := map[int]bool{}
@@ -544,51 +609,162 @@ func main() {
 						}
 						if len(distinct) >= 2 || v.skipped {
 							nontriv = true
-							prof := profile(nodes, policy, v)
-							r.Distinct("nontrivial", prof)
-							mu.Lock()
-							sk := fmt.Sprintf("%d/%d/%v/%v", len(nodes), policy, v.skipped, ri.allUp)
-							if !sampled[sk] && len(sampled) < 8 && len(nodes) >= 2 {
-								sampled[sk] = true
-								r.Sample(map[string]interface{}{"case": k, "picks": v.picks})
+							if s <= 1 {
+								profiles[profile(nodes, policy, v)] = true
 							}
-							mu.Unlock()
+							sk := fmt.Sprintf("%d/%d/%v/%v", len(nodes), policy, v.skipped, ri.allUp)
+							if k == 0 && !sampled[sk] && len(sampled) < 8 && len(nodes) >= 2 {
+								sampled[sk] = true
+								out.Samples = append(out.Samples, map[string]interface{}{"case": c, "picks": v.picks})
+							}
 						}
 					}
 				}
 				if nontriv {
-					loc.nontrivial++
+					out.Stats.Nontrivial++
 				}
 			}
-			mu.Lock()
-			st.evals += loc.evals
-			st.lists += loc.lists
-			st.cases += loc.cases
-			st.fullPerm += loc.fullPerm
-			st.nontrivial += loc.nontrivial
-			st.wrapRuns += loc.wrapRuns
-			gEvals += loc.evals
-			mu.Unlock()
-		})
-		groupInfo = append(groupInfo, map[string]interface{}{"group": g.name, "lists": g.count, "lists_done": done, "runs": gEvals})
-		if done < g.count {
-			r.Capped(fmt.Sprintf("time budget used up in group %q after %d of %d lists; earlier groups complete", g.name, done, g.count))
+		}
+		if out.Capped {
 			break
 		}
 	}
-	r.Set("evaluations", st.evals)
-	r.Set("lists", st.lists)
-	r.Set("list_policy_cases", st.cases)
-	r.Set("list_policy_cases_nontrivial", st.nontrivial)
-	r.Set("list_policy_cases_all_permutations", st.fullPerm)
-	r.Set("runs_started_near_counter_wrap", st.wrapRuns)
+	for p := range profiles {
+		out.Profiles = append(out.Profiles, p)
+	}
+	for _, vr := range viol {
+		out.Viol = append(out.Viol, *vr)
+	}
+	sort.Slice(out.Viol, func(i, j int) bool { return out.Viol[i].Summary < out.Viol[j].Summary })
+	return out
+}
+
+func partA(r *ev.Run) {
+	groups := groupsFor(r)
+	workers := runtime.NumCPU()
+	budget := 35 * time.Second
+	if r.Thorough() {
+		budget = 10 * time.Minute
+	}
+	deadline := time.Now().Add(budget)
+	self := os.Getenv("VERIF_CHECK_BIN")
+	if self == "" {
+		self, _ = os.Executable()
+	}
+	tmp, err := os.MkdirTemp(os.Getenv("VERIF_BUILD_DIR"), "c25a")
+	if err != nil {
+		ev.Fatalf("%v", err)
+	}
+	defer os.RemoveAll(tmp)
+	outs := make([]*shardOut, workers)
+	var wg sync.WaitGroup
+	for k := 0; k < workers; k++ {
+		wg.Add(1)
+		go func(k int) {
+			defer wg.Done()
+			of := fmt.Sprintf("%s/%d.json", tmp, k)
+			cmd := exec.Command(self, r.Tier)
+			cmd.Env = append(os.Environ(), fmt.Sprintf("C25_CHILD=%d/%d", k, workers), "C25_OUT="+of,
+				"C25_DEADLINE="+strconv.FormatInt(deadline.UnixNano(), 10), "GOMAXPROCS=2")
+			cmd.Stderr = os.Stderr
+			runErr := cmd.Run()
+			o := &shardOut{}
+			b, rerr := os.ReadFile(of)
+			if rerr != nil || json.Unmarshal(b, o) != nil {
+				o.Error = fmt.Sprintf("worker %d/%d failed: %v", k, workers, runErr)
+			}
+			outs[k] = o
+		}(k)
+	}
+	wg.Wait()
+	var st stats
+	gRuns := make([]int64, len(groups))
+	gDone := make([]int, len(groups))
+	capped := false
+	for _, o := range outs {
+		if o.Error != "" {
+			ev.Fatalf("%s", o.Error)
+		}
+		st.Evals += o.Stats.Evals
+		st.Lists += o.Stats.Lists
+		st.Cases += o.Stats.Cases
+		st.FullPerm += o.Stats.FullPerm
+		st.Nontrivial += o.Stats.Nontrivial
+		st.WrapRuns += o.Stats.WrapRuns
+		for i := range gRuns {
+			gRuns[i] += o.GroupRuns[i]
+			gDone[i] += o.GroupDone[i]
+		}
+		capped = capped || o.Capped
+		for _, p := range o.Profiles {
+			r.Distinct("nontrivial", p)
+		}
+		for _, s := range o.Samples {
+			r.Sample(s)
+		}
+		for _, v := range o.Viol {
+			for c := int64(0); c < v.Count; c++ {
+				r.Violation(ev.Witness{Summary: v.Summary, Features: v.Features, Case: v.Case})
+			}
+		}
+	}
+	var groupInfo []map[string]interface{}
+	completeUpTo := ""
+	for i, g := range groups {
+		groupInfo = append(groupInfo, map[string]interface{}{"group": g.name, "lists": g.count, "lists_done": gDone[i], "runs": gRuns[i]})
+		if gDone[i] == g.count && completeUpTo == "" || gDone[i] == g.count && i > 0 && gDone[i-1] == groups[i-1].count {
+			completeUpTo = g.name
+		}
+	}
+	if capped {
+		r.Capped(fmt.Sprintf("part (a): time budget used up; groups complete up to and including %q", completeUpTo))
+	}
+	permLimit := r.Pick(24, 120)
+	r.Set("evaluations", st.Evals)
+	r.Set("lists", st.Lists)
+	r.Set("list_policy_cases", st.Cases)
+	r.Set("list_policy_cases_nontrivial", st.Nontrivial)
+	r.Set("list_policy_cases_all_permutations", st.FullPerm)
+	r.Set("runs_started_near_counter_wrap", st.WrapRuns)
 	r.Set("groups", groupInfo)
-	r.Set("rule", fmt.Sprintf("part (a): every replica list of the groups listed under 'groups' x 3 local-read policies x shuffle answers (all permutations when the balancers in use have at most %d, else 5 fixed arrangements) x initial counters {0, 2^32-L-1} (all up, 3L+2 calls) or {0,1,2^32-L-1..2^32-1} (some node down, 2L+2 calls); a run is non-trivial when at least two different nodes were picked or a call had to step over a down node / fall back to the remote balancer; distinct_nontrivial counts distinct (policy, multiset of (normalized weight, dc, status) of the nodes, pick-count vector) profiles of non-trivial runs plus the distinct outcomes of the vsched scenarios of part (b)", permLimit))
+	r.Set("rule", fmt.Sprintf("part (a): every replica list of the groups listed under 'groups' x 3 local-read policies x shuffle answers (all permutations when the balancers in use have at most %d, else 5 fixed arrangements) x initial counters {0, 2^32-L-1} (all up, 3L+2 calls) or (some node down) {0,1,2^32-L-1..2^32-1} with 2L+2 calls in the thorough tier, {0,1,2^32-L-1,2^32-L,2^32-(L+1)/2,2^32-2,2^32-1} with L+2 calls in the quick tier when L>4; a run is non-trivial when at least two different nodes were picked or a call had to step over a down node / fall back to the remote balancer; distinct_nontrivial counts (for the runs starting at counter 0 or 1) distinct (policy, multiset of (weight, dc, status, times picked) over the nodes, failed calls) profiles of non-trivial runs, plus the distinct outcomes of the vsched scenarios of part (b)", permLimit))
 	r.Assume("the round-robin counter is set through an injected accessor (values near 2^32 stand for a balancer that has served ~4.3e9 selections)")
 	r.Assume("fake pools always hand out a connection, so a selection fails only when the selection logic fails")
 	r.Assume("'a selection must succeed while a replica the policy may use is up' is read into 'a down replica is never picked while another eligible replica is up'")
+}
 
-	// ---- part (b) ----
+func main() {
+	gx.Quiet()
+	r := ev.Start("C25", "exploration")
+	scs := scenarios(r)
+	if os.Getenv("VX_CHILD") != "" {
+		vx.Main(r, scs)
+	}
+	if ch := os.Getenv("C25_CHILD"); ch != "" {
+		var k, n int
+		fmt.Sscanf(ch, "%d/%d", &k, &n)
+		dl, _ := strconv.ParseInt(os.Getenv("C25_DEADLINE"), 10, 64)
+		debug.SetGCPercent(800) // tiny live heap, high allocation rate
+		o := enumerateShard(r, k, n, time.Unix(0, dl))
+		b, _ := json.Marshal(o)
+		if err := os.WriteFile(os.Getenv("C25_OUT"), b, 0o644); err != nil {
+			ev.Fatalf("%v", err)
+		}
+		os.Exit(0)
+	}
+	var rc kase
+	if r.ReplayCase(&rc) {
+		if rc.Scenario != "" {
+			vx.Main(r, scs) // a vsched witness
+		}
+		v := runCase(rc)
+		fmt.Printf("replay %+v\n  picks=%v\n  violation=%q features=%v\n", rc, v.picks, v.viol, v.features)
+		if v.viol != "" {
+			r.Violation(ev.Witness{Summary: v.viol, Features: v.features, Case: rc})
+		}
+		r.Finish()
+	}
+	partA(r)
 	vx.Main(r, scs, "part (b): shuffle answers are fixed per scenario (identity or rotation); DBInfo's mutex and the balancer's atomic counter are the scheduling points")
 }
 
